@@ -900,8 +900,474 @@ mod dec {
 
 mod dec2 {
     use super::*;
+    use turdb::records::jsonb::{JsonbBuilder, JsonbBuilderValue, JsonbValue, JsonbView};
+    use turdb::records::{ArrayBuilder, ArrayView, ColumnDef, CompositeView, DataType, RecordBuilder, RecordView, Schema};
+    use turdb::storage::toast::{is_toast_pointer, make_chunk_key, parse_chunk_key, ToastPointer};
+    use turdb::OwnedValue;
+
+    // ---------------- TOAST ----------------
+    fn d_toast_ptr(_s: &Seed, b: &[u8], r: &mut Rec) {
+        r.inf("is_toast_pointer", || is_toast_pointer(b));
+        if let Some(p) = r.call("decode", || ToastPointer::decode(b)) {
+            r.inf("row_id", || p.row_id());
+            r.inf("column_index", || p.column_index());
+            r.inf("encode", || p.encode());
+        }
+    }
+    fn d_toast_key(_s: &Seed, b: &[u8], r: &mut Rec) {
+        r.call("parse_chunk_key", || parse_chunk_key(b));
+    }
+    fn toast() -> Vec<Decoder> {
+        let p = vec![
+            Seed::new("small", ToastPointer::new(1, 0, 3000).encode().to_vec()),
+            Seed::new("big", ToastPointer::new(0x0000_FFFF_FFFF_FFFF, 0xFFFF, u64::MAX).encode().to_vec()),
+            Seed::new("mid", ToastPointer::new(123456, 7, 1_000_000).encode().to_vec()),
+        ];
+        let k = vec![
+            Seed::new("k0", make_chunk_key(1, 0).to_vec()),
+            Seed::new("k1", make_chunk_key(u64::MAX, u32::MAX).to_vec()),
+            Seed::new("k2", make_chunk_key(0x0102030405060708, 258).to_vec()),
+        ];
+        vec![
+            Decoder { name: "toast_pointer", page: false, strings: true, seeds: p, f: d_toast_ptr },
+            Decoder { name: "toast_chunk_key", page: false, strings: true, seeds: k, f: d_toast_key },
+        ]
+    }
+
+    // ---------------- JSONB ----------------
+    fn walk_value(v: &JsonbValue, r: &mut Rec, budget: &mut u32, depth: u32) {
+        if *budget == 0 || depth > 24 {
+            return;
+        }
+        *budget -= 1;
+        r.call("value.to_json_string", || v.to_json_string());
+        match v {
+            JsonbValue::Array(a) | JsonbValue::Object(a) => walk_view(a, r, budget, depth + 1),
+            _ => {}
+        }
+    }
+    pub fn walk_view(v: &JsonbView, r: &mut Rec, budget: &mut u32, depth: u32) {
+        if *budget == 0 {
+            return;
+        }
+        *budget -= 1;
+        r.inf("root_type", || v.root_type());
+        r.inf("entry_count", || v.entry_count());
+        r.call("to_json_string", || v.to_json_string());
+        if let Some(x) = r.call("as_value", || v.as_value()) {
+            if depth == 0 && !matches!(x, JsonbValue::Array(_) | JsonbValue::Object(_)) {
+                r.call("value.to_json_string", || x.to_json_string());
+            }
+        }
+        for k in ["a", "k", "o", "zz", ""] {
+            if let Some(Some(x)) = r.call("get", || v.get(k)) {
+                walk_value(&x, r, budget, depth + 1);
+            }
+        }
+        r.call("get_path", || v.get_path(&["o", "k"]));
+        r.call("get_path", || v.get_path(&[]));
+        if let Some(n) = r.call("array_len", || v.array_len()) {
+            for i in 0..n.min(24) {
+                if let Some(Some(x)) = r.call("array_get", || v.array_get(i)) {
+                    walk_value(&x, r, budget, depth + 1);
+                }
+            }
+            r.call("array_get", || v.array_get(n));
+            if n > 0 {
+                r.call("array_get", || v.array_get(n - 1));
+            }
+        }
+        r.call("object_len", || v.object_len());
+        if let Some(it) = r.call("iter_object", || v.iter_object()) {
+            let mut it = it;
+            for _ in 0..64 {
+                match r.inf("iter_object.next", || it.next()) {
+                    Some(Some(Ok((_, x)))) => walk_value(&x, r, budget, depth + 1),
+                    Some(Some(Err(_))) | Some(None) | None => break,
+                }
+            }
+        }
+        if let Some(it) = r.call("iter_array", || v.iter_array()) {
+            let mut it = it;
+            for _ in 0..64 {
+                match r.inf("iter_array.next", || it.next()) {
+                    Some(Some(Ok(_))) => {}
+                    _ => break,
+                }
+            }
+        }
+    }
+    fn d_jsonb(_s: &Seed, b: &[u8], r: &mut Rec) {
+        if let Some(v) = r.call("new", || JsonbView::new(b)) {
+            let mut budget = 400u32;
+            walk_view(&v, r, &mut budget, 0);
+        }
+    }
+    fn jsonb_seeds() -> Vec<Seed> {
+        let mut seeds = vec![];
+        seeds.push(Seed::new("null", JsonbBuilder::new_null().build()));
+        seeds.push(Seed::new("bool", JsonbBuilder::new_bool(true).build()));
+        seeds.push(Seed::new("number", JsonbBuilder::new_number(-12.5).build()));
+        seeds.push(Seed::new("string", JsonbBuilder::new_string("héllo").build()));
+        seeds.push(Seed::new("empty-array", JsonbBuilder::new_array().build()));
+        seeds.push(Seed::new("empty-object", JsonbBuilder::new_object().build()));
+        let mut a = JsonbBuilder::new_array();
+        a.push(1i64);
+        a.push("s");
+        a.push(true);
+        a.push(JsonbBuilderValue::Null);
+        seeds.push(Seed::new("array-mixed", a.build()));
+        let mut o = JsonbBuilder::new_object();
+        o.set("a", 1i64);
+        o.set("k", "x");
+        o.set("zz", false);
+        seeds.push(Seed::new("object-flat", o.build()));
+        let mut o = JsonbBuilder::new_object();
+        o.set("o", JsonbBuilderValue::Object(vec![("k".to_string(), JsonbBuilderValue::Array(vec![JsonbBuilderValue::Number(1.0), JsonbBuilderValue::Number(2.5)]))]));
+        o.set("a", JsonbBuilderValue::Null);
+        seeds.push(Seed::new("object-nested", o.build()));
+        let mut a = JsonbBuilder::new_array();
+        a.push(JsonbBuilderValue::Array(vec![JsonbBuilderValue::String("q".into())]));
+        a.push(JsonbBuilderValue::Array(vec![]));
+        a.push(JsonbBuilderValue::Object(vec![("a".to_string(), JsonbBuilderValue::Bool(true))]));
+        seeds.push(Seed::new("array-nested", a.build()));
+        seeds
+    }
+
+    // ---------------- arrays ----------------
+    pub fn walk_array(v: &ArrayView, et: Option<DataType>, r: &mut Rec) {
+        let t = r.inf("elem_type", || v.elem_type());
+        r.inf("ndims", || v.ndims());
+        r.inf("is_empty", || v.is_empty());
+        let Some(n) = r.inf("len", || v.len()) else { return };
+        let et = et.or(t).unwrap_or(DataType::Int4);
+        let mut idx: Vec<usize> = (0..n.min(12)).collect();
+        if n > 12 {
+            idx.push(n - 1);
+        }
+        idx.push(n);
+        for i in idx {
+            r.inf("is_null", || v.is_null(i));
+            match et {
+                DataType::Int2 => drop(r.call("get_int2", || v.get_int2(i))),
+                DataType::Int4 => drop(r.call("get_int4", || v.get_int4(i))),
+                DataType::Int8 => drop(r.call("get_int8", || v.get_int8(i))),
+                DataType::Float4 => drop(r.call("get_float4", || v.get_float4(i))),
+                DataType::Float8 => drop(r.call("get_float8", || v.get_float8(i))),
+                DataType::Bool => drop(r.call("get_bool", || v.get_bool(i))),
+                DataType::Text => drop(r.call("get_text", || v.get_text(i))),
+                _ => drop(r.call("get_blob", || v.get_blob(i))),
+            }
+        }
+    }
+    fn d_array(s: &Seed, b: &[u8], r: &mut Rec) {
+        let et = if let Aux::Elem(t) = &s.aux { Some(*t) } else { None };
+        if let Some(v) = r.call("new", || ArrayView::new(b)) {
+            walk_array(&v, et, r);
+        }
+    }
+    fn array_seeds() -> Vec<Seed> {
+        let mut seeds = vec![];
+        let mut b = ArrayBuilder::new(DataType::Int4);
+        b.push_int4(10);
+        b.push_null();
+        b.push_int4(-30);
+        seeds.push(Seed::new("int4-null", b.build()).aux(Aux::Elem(DataType::Int4)));
+        let b = ArrayBuilder::new(DataType::Int4);
+        seeds.push(Seed::new("int4-empty", b.build()).aux(Aux::Elem(DataType::Int4)));
+        let mut b = ArrayBuilder::new(DataType::Int2);
+        b.push_int2(1);
+        b.push_int2(-2);
+        b.push_int2(3);
+        seeds.push(Seed::new("int2", b.build()).aux(Aux::Elem(DataType::Int2)));
+        let mut b = ArrayBuilder::new(DataType::Int8);
+        b.push_int8(i64::MAX);
+        b.push_int8(0);
+        seeds.push(Seed::new("int8", b.build()).aux(Aux::Elem(DataType::Int8)));
+        let mut b = ArrayBuilder::new(DataType::Float4);
+        b.push_float4(1.5);
+        b.push_float4(-0.0);
+        seeds.push(Seed::new("float4", b.build()).aux(Aux::Elem(DataType::Float4)));
+        let mut b = ArrayBuilder::new(DataType::Float8);
+        b.push_float8(2.5);
+        b.push_null();
+        seeds.push(Seed::new("float8", b.build()).aux(Aux::Elem(DataType::Float8)));
+        let mut b = ArrayBuilder::new(DataType::Bool);
+        b.push_bool(true);
+        b.push_bool(false);
+        b.push_null();
+        seeds.push(Seed::new("bool", b.build()).aux(Aux::Elem(DataType::Bool)));
+        let mut b = ArrayBuilder::new(DataType::Text);
+        b.push_text("a");
+        b.push_text("bcé");
+        b.push_null();
+        b.push_text("");
+        seeds.push(Seed::new("text", b.build()).aux(Aux::Elem(DataType::Text)));
+        let mut b = ArrayBuilder::new(DataType::Blob);
+        b.push_blob(&[0, 255, 1]);
+        b.push_blob(&[]);
+        seeds.push(Seed::new("blob", b.build()).aux(Aux::Elem(DataType::Blob)));
+        seeds
+    }
+
+    // ---------------- composites ----------------
+    pub fn walk_composite(v: &CompositeView, n: usize, r: &mut Rec) {
+        r.inf("field_count", || v.field_count());
+        r.inf("depth", || v.depth());
+        for i in 0..=n {
+            r.inf("is_null", || v.is_null(i));
+            r.call("get_field", || v.get_field(i));
+            if let Some(c) = r.call("get_nested_composite", || v.get_nested_composite(i, 2)) {
+                r.inf("nested.is_null", || c.is_null(0));
+                r.call("nested.get_field", || c.get_field(0));
+                r.call("nested.get_field", || c.get_field(1));
+            }
+        }
+    }
+    fn d_composite(s: &Seed, b: &[u8], r: &mut Rec) {
+        let n = if let Aux::Fields(n) = &s.aux { *n } else { 2 };
+        if let Some(v) = r.call("new", || CompositeView::new(b, n)) {
+            walk_composite(&v, n, r);
+        }
+    }
+    fn build_rec(cols: Vec<ColumnDef>, f: &dyn Fn(&mut RecordBuilder)) -> (Schema, Vec<u8>) {
+        let schema = Schema::new(cols);
+        let bytes = {
+            let mut b = RecordBuilder::new(&schema);
+            f(&mut b);
+            b.build().expect("seed record builds")
+        };
+        (schema, bytes)
+    }
+    fn composite_seeds() -> Vec<Seed> {
+        let mut seeds = vec![];
+        let (_, b) = build_rec(vec![ColumnDef::new("x", DataType::Int4), ColumnDef::new("y", DataType::Int4)], &|b| {
+            b.set_int4(0, 10).unwrap();
+            b.set_int4(1, 20).unwrap();
+        });
+        seeds.push(Seed::new("int-int", b).aux(Aux::Fields(2)));
+        let (_, b) = build_rec(vec![ColumnDef::new("x", DataType::Int4), ColumnDef::new("t", DataType::Text)], &|b| {
+            b.set_null(0);
+            b.set_text(1, "abc").unwrap();
+        });
+        seeds.push(Seed::new("null-text", b).aux(Aux::Fields(2)));
+        let cols: Vec<ColumnDef> = (0..9).map(|i| ColumnDef::new(format!("c{i}"), DataType::Int2)).collect();
+        let (_, b) = build_rec(cols, &|b| {
+            for i in 0..9 {
+                if i % 3 == 0 {
+                    b.set_null(i)
+                } else {
+                    b.set_int2(i, i as i16).unwrap()
+                }
+            }
+        });
+        seeds.push(Seed::new("nine-fields", b).aux(Aux::Fields(9)));
+        seeds
+    }
+
+    // ---------------- records ----------------
+    fn d_record(s: &Seed, b: &[u8], r: &mut Rec) {
+        let Aux::Schema { schema, opt_only } = &s.aux else { return };
+        let Some(v) = r.call("new", || RecordView::new(b, schema)) else { return };
+        r.inf("header_len", || v.header_len());
+        r.inf("data_offset", || v.data_offset());
+        r.inf("null_bitmap", || v.null_bitmap().len());
+        r.inf("offset_table", || v.offset_table().len());
+        r.inf("record_column_count", || v.record_column_count());
+        for (i, col) in schema.columns().iter().enumerate() {
+            let dt = col.data_type;
+            r.inf("is_null", || v.is_null(i));
+            r.inf("is_null_or_missing", || v.is_null_or_missing(i));
+            r.call("from_record_column", || OwnedValue::from_record_column(&v, i, dt));
+            macro_rules! g {
+                ($get:ident, $opt:ident) => {{
+                    if !*opt_only {
+                        r.call(stringify!($get), || v.$get(i));
+                    }
+                    r.call(stringify!($opt), || v.$opt(i));
+                }};
+            }
+            if dt.fixed_size().is_some() {
+                if !*opt_only {
+                    r.inf("get_fixed_col_offset", || v.get_fixed_col_offset(i));
+                }
+            } else if !*opt_only {
+                r.call("get_var_bounds", || v.get_var_bounds(i));
+                r.call("get_var_raw", || v.get_var_raw(i));
+            }
+            match dt {
+                DataType::Bool => g!(get_bool, get_bool_opt),
+                DataType::Int2 => g!(get_int2, get_int2_opt),
+                DataType::Int4 => g!(get_int4, get_int4_opt),
+                DataType::Int8 => g!(get_int8, get_int8_opt),
+                DataType::Float4 => g!(get_float4, get_float4_opt),
+                DataType::Float8 => g!(get_float8, get_float8_opt),
+                DataType::Date => g!(get_date, get_date_opt),
+                DataType::Time => g!(get_time, get_time_opt),
+                DataType::Timestamp => g!(get_timestamp, get_timestamp_opt),
+                DataType::TimestampTz => g!(get_timestamptz, get_timestamptz_opt),
+                DataType::Uuid => g!(get_uuid, get_uuid_opt),
+                DataType::MacAddr => g!(get_macaddr, get_macaddr_opt),
+                DataType::Inet4 => g!(get_inet4, get_inet4_opt),
+                DataType::Inet6 => g!(get_inet6, get_inet6_opt),
+                DataType::Interval => g!(get_interval, get_interval_opt),
+                DataType::Enum => g!(get_enum, get_enum_opt),
+                DataType::Point => g!(get_point, get_point_opt),
+                DataType::Box => g!(get_box, get_box_opt),
+                DataType::Circle => g!(get_circle, get_circle_opt),
+                DataType::Int4Range => g!(get_int4_range, get_int4_range_opt),
+                DataType::Int8Range => g!(get_int8_range, get_int8_range_opt),
+                DataType::DateRange => g!(get_date_range, get_date_range_opt),
+                DataType::TimestampRange => g!(get_timestamp_range, get_timestamp_range_opt),
+                DataType::Text => g!(get_text, get_text_opt),
+                DataType::Varchar => {
+                    if !*opt_only {
+                        r.call("get_varchar", || v.get_varchar(i));
+                    }
+                    r.call("get_text_opt", || v.get_text_opt(i));
+                }
+                DataType::Char => {
+                    if !*opt_only {
+                        r.call("get_char", || v.get_char(i));
+                    }
+                    r.call("get_text_opt", || v.get_text_opt(i));
+                }
+                DataType::Blob => g!(get_blob, get_blob_opt),
+                DataType::Vector => {
+                    if !*opt_only {
+                        r.call("get_vector", || v.get_vector(i));
+                        r.call("get_vector_copy", || v.get_vector_copy(i));
+                    }
+                    r.call("get_vector_opt", || v.get_vector_opt(i));
+                }
+                DataType::Decimal => {
+                    let d = if !*opt_only { r.call("get_decimal", || v.get_decimal(i)) } else { None };
+                    let d2 = r.call("get_decimal_opt", || v.get_decimal_opt(i)).flatten();
+                    if let Some(d) = d.or(d2) {
+                        r.inf("decimal.is_negative", || d.is_negative());
+                        r.inf("decimal.scale", || d.scale());
+                        r.inf("decimal.digits", || d.digits());
+                    }
+                }
+                DataType::Jsonb => {
+                    let j = if !*opt_only { r.call("get_jsonb", || v.get_jsonb(i)) } else { None };
+                    let j2 = r.call("get_jsonb_opt", || v.get_jsonb_opt(i)).flatten();
+                    if let Some(j) = j.or(j2) {
+                        let mut budget = 60u32;
+                        walk_view(&j, r, &mut budget, 0);
+                    }
+                }
+                DataType::Array => {
+                    let a = if !*opt_only { r.call("get_array", || v.get_array(i)) } else { None };
+                    let a2 = r.call("get_array_opt", || v.get_array_opt(i)).flatten();
+                    if let Some(a) = a.or(a2) {
+                        walk_array(&a, None, r);
+                    }
+                }
+                DataType::Composite => {
+                    let c = if !*opt_only { r.call("get_composite", || v.get_composite(i, 2)) } else { None };
+                    let c2 = r.call("get_composite_opt", || v.get_composite_opt(i, 2)).flatten();
+                    if let Some(c) = c.or(c2) {
+                        walk_composite(&c, 2, r);
+                    }
+                }
+            }
+        }
+    }
+    fn rec_seed(name: &str, cols: Vec<ColumnDef>, f: &dyn Fn(&mut RecordBuilder)) -> Seed {
+        let (schema, bytes) = build_rec(cols, f);
+        Seed::new(name, bytes).aux(Aux::Schema { schema, opt_only: false })
+    }
+    fn record_seeds() -> Vec<Seed> {
+        use DataType::*;
+        let c = |n: &str, t: DataType| ColumnDef::new(n, t);
+        let mut seeds = vec![];
+        seeds.push(rec_seed("fixed-numeric", vec![c("b", Bool), c("i2", Int2), c("i4", Int4), c("i8", Int8), c("f4", Float4), c("f8", Float8), c("d", Date), c("t", Time), c("ts", Timestamp)], &|b| {
+            b.set_bool(0, true).unwrap();
+            b.set_int2(1, -2).unwrap();
+            b.set_int4(2, 70000).unwrap();
+            b.set_int8(3, -5_000_000_000).unwrap();
+            b.set_float4(4, 1.5).unwrap();
+            b.set_float8(5, -2.25).unwrap();
+            b.set_date(6, 19000).unwrap();
+            b.set_time(7, 3_600_000_000).unwrap();
+            b.set_timestamp(8, 1_700_000_000_000_000).unwrap();
+        }));
+        seeds.push(rec_seed("fixed-net", vec![c("tz", TimestampTz), c("u", Uuid), c("m", MacAddr), c("i4", Inet4), c("e", Enum)], &|b| {
+            b.set_timestamptz(0, 1_700_000_000_000_000, -18000).unwrap();
+            b.set_uuid(1, &[9u8; 16]).unwrap();
+            b.set_macaddr(2, &[1, 2, 3, 4, 5, 6]).unwrap();
+            b.set_inet4(3, &[192, 168, 0, 1]).unwrap();
+            b.set_enum(4, 3, 1).unwrap();
+        }));
+        seeds.push(rec_seed("fixed-range", vec![c("i6", Inet6), c("iv", Interval), c("r4", Int4Range), c("r8", Int8Range)], &|b| {
+            b.set_inet6(0, &[0x20; 16]).unwrap();
+            b.set_interval(1, 5_000_000, 3, 14).unwrap();
+            b.set_int4_range(2, Some(1), Some(10), true, false).unwrap();
+            b.set_int8_range(3, None, Some(99), false, true).unwrap();
+        }));
+        seeds.push(rec_seed("fixed-geo", vec![c("p", Point), c("bx", Box)], &|b| {
+            b.set_point(0, 1.0, -2.0).unwrap();
+            b.set_box(1, (0.0, 0.0), (3.0, 4.0)).unwrap();
+        }));
+        seeds.push(rec_seed("fixed-geo2", vec![c("ci", Circle), c("dr", DateRange), c("tr", TimestampRange)], &|b| {
+            b.set_circle(0, (1.0, 1.0), 2.0).unwrap();
+            b.set_date_range_empty(1).unwrap();
+            b.set_timestamp_range(2, Some(5), None, true, false).unwrap();
+        }));
+        seeds.push(rec_seed("var-text", vec![c("t", Text), c("bl", Blob), ColumnDef::new_varchar("vc", Some(10)), ColumnDef::new_char("ch", 4), c("dec", Decimal)], &|b| {
+            b.set_text(0, "héllo").unwrap();
+            b.set_blob(1, &[0, 255, 7]).unwrap();
+            b.set_varchar(2, "vc").unwrap();
+            b.set_char(3, "ab").unwrap();
+            b.set_decimal(4, 123456789, 2, true).unwrap();
+        }));
+        {
+            let mut o = JsonbBuilder::new_object();
+            o.set("a", 1i64);
+            o.set("k", "x");
+            let mut a = ArrayBuilder::new(Int4);
+            a.push_int4(7);
+            a.push_null();
+            let arr = a.build();
+            let (_, comp) = build_rec(vec![c("x", Int4), c("y", Int4)], &|b| {
+                b.set_int4(0, 1).unwrap();
+                b.set_int4(1, 2).unwrap();
+            });
+            seeds.push(rec_seed("var-nested", vec![c("v", Vector), c("j", Jsonb), c("a", Array), c("c", Composite)], &|b| {
+                b.set_vector(0, &[1.0, -2.0, 0.5]).unwrap();
+                b.set_jsonb(1, &o).unwrap();
+                b.set_array(2, &arr).unwrap();
+                b.set_composite(3, &comp).unwrap();
+            }));
+        }
+        seeds.push(rec_seed("mixed-nulls", vec![c("id", Int8), c("n", Int4), c("t", Text), c("x", Float8), c("u", Text), c("b", Bool)], &|b| {
+            b.set_int8(0, 42).unwrap();
+            b.set_null(1);
+            b.set_text(2, "row").unwrap();
+            b.set_float8(3, 0.5).unwrap();
+            b.set_null(4);
+            b.set_bool(5, false).unwrap();
+        }));
+        {
+            // record written with an older 2-column schema, read with the 4-column one (ALTER TABLE ADD COLUMN)
+            let (_, bytes) = build_rec(vec![c("id", Int8), c("n", Int4)], &|b| {
+                b.set_int8(0, 7).unwrap();
+                b.set_int4(1, 8).unwrap();
+            });
+            let schema = Schema::new(vec![c("id", Int8), c("n", Int4), c("extra", Int8), c("flag", Bool)]);
+            seeds.push(Seed::new("short-record", bytes).aux(Aux::Schema { schema, opt_only: true }));
+        }
+        seeds
+    }
+
     pub fn all() -> Vec<Decoder> {
-        vec![]
+        let mut v = toast();
+        v.push(Decoder { name: "jsonb", page: false, strings: true, seeds: jsonb_seeds(), f: d_jsonb });
+        v.push(Decoder { name: "array", page: false, strings: true, seeds: array_seeds(), f: d_array });
+        v.push(Decoder { name: "composite", page: false, strings: true, seeds: composite_seeds(), f: d_composite });
+        v.push(Decoder { name: "record", page: false, strings: true, seeds: record_seeds(), f: d_record });
+        v
     }
 }
 mod dec3 {
